@@ -337,9 +337,87 @@ def sub_random(acc, shard, nshards, tier, seed):
             seed=shard_seed(seed, shard, 3), is_known=known().matches)
 
 
+def _render_with(md, text):
+    import io
+
+    from docutils.frontend import get_default_settings
+    from docutils.utils import new_document
+
+    from myst_parser.parsers.docutils_ import Parser
+
+    st_ = get_default_settings(Parser)
+    for k, v in front.base_settings(io.StringIO()).items():
+        setattr(st_, k, v)
+    document = new_document("<string>", st_)
+    md.options["document"] = document
+    md.render(text)
+    return document
+
+
+def check_reuse(acc, case) -> list[dict]:
+    """Anchors are unique *per document*: a parser / renderer object that renders several documents one after the other
+    gives each of them the anchors a fresh parser gives it, and document.myst_slugs holds that document's anchors only."""
+    from docutils import nodes
+
+    from myst_parser.config.main import MdParserConfig
+    from myst_parser.mdit_to_docutils.base import DocutilsRenderer
+    from myst_parser.parsers.mdit import create_md_parser
+
+    mk = (acc or Acc(PROPERTY, "replay")).violation
+    cfg = MdParserConfig(heading_anchors=case["depth"])
+    shared = create_md_parser(cfg, DocutilsRenderer)
+    vs = []
+    for k, heads in enumerate(case["docs"]):
+        text = "\n\n".join("#" * lv + " " + t for lv, t in heads) + "\n"
+        try:
+            d_shared = _render_with(shared, text)
+            d_fresh = _render_with(create_md_parser(cfg, DocutilsRenderer), text)
+        except Exception as exc:  # noqa: BLE001
+            return [mk(f"C10:render-raises:{type(exc).__name__}", case, "document", f"{type(exc).__name__}: {exc}")]
+
+        def slugs(doc):
+            hs = sorted(doc.findall(lambda n: isinstance(n, (nodes.section, nodes.rubric))), key=lambda n: n.line or 0)
+            return [n.get("slug") for n in hs]
+
+        a, b = slugs(d_fresh), slugs(d_shared)
+        if a != b:
+            vs.append(mk("C10:anchors-depend-on-earlier-document", case, {"document": k, "anchors": a}, {"anchors": b}))
+            break
+        if sorted(getattr(d_shared, "myst_slugs", {})) != sorted(x for x in a if x):
+            vs.append(mk("C10:slug-table-holds-other-documents-anchors", case, sorted(x for x in a if x),
+                         sorted(getattr(d_shared, "myst_slugs", {}))))
+            break
+    if acc is not None:
+        titles = [t for heads in case["docs"] for _lv, t in heads]
+        acc.case(("reuse", repr(case)), len(case["docs"]) >= 2 and len(set(titles)) < len(titles), ["reuse", f"docs:{len(case['docs'])}"],
+                 sample=case)
+    return vs
+
+
+def sub_reuse(acc, shard, nshards, tier, seed):
+    """Every ordered pair (thorough: triple) of documents with one or two headings over the titles {a, b, 'a b'} at levels
+    1-2, rendered by one parser object (exhaustive)."""
+    kn = known()
+    titles = ["a", "b", "a b"]
+    docs = [[(1, t)] for t in titles] + [[(1, t), (lv, u)] for t in titles for u in titles for lv in (1, 2)]
+    i = 0
+    for seq in itertools.product(docs, repeat=2 if tier == "quick" else 3):
+        i += 1
+        if i % nshards != shard:
+            continue
+        for v in check_reuse(acc, {"depth": 2, "docs": [list(map(list, d)) for d in seq]}):
+            if kn.matches(v):
+                acc.known_hits[v["signature"]] += 1
+            elif len(acc.violations) < 8 and all(v["signature"] != w["signature"] for w in acc.violations):
+                acc.violations.append(v)
+    acc.exhaustive = True
+
+
 def plan(tier):
-    return [Sub("enum", sub_enum, 16), Sub("random", sub_random, 16)]
+    return [Sub("enum", sub_enum, 16), Sub("random", sub_random, 16), Sub("reuse", sub_reuse, 2 if tier == "quick" else 8)]
 
 
 def replay(sub, input):
+    if sub == "reuse":
+        return check_reuse(None, input)
     return check_case(None, input)
